@@ -298,3 +298,7 @@ def sampling(tier, rng, rep):
         rep.case(key=(t,), nontrivial=k >= 2, sample={k_: inp[k_] for k_ in ("n", "kind", "assignment_order")} if t == 0 else None)
         if len(rep.failures) >= 3:
             return
+
+
+from vf.pcontract import lean_lemmas
+lean_lemmas(P, "word_hom_lemma", "lean/Glue.lean", ["word_hom"], note="list-level statement of the concatenation lemma (any monoid)")
